@@ -189,3 +189,33 @@ package decorator
 //@ func (r *FileRestorer) restoreScope
 //@ modifies map(*dst.Object, *ast.Object), map(*ast.Object, *dst.Object), map(*dst.Scope, *ast.Scope), map(*ast.Scope, *dst.Scope), map(*ast.Object, dst.Node), newobjects
 //@ ensures extras_off: !r.Extras ==> result == nil
+
+// ---------------------------------------------------------------------------------------------
+// Package.save (load.go)
+//
+// writeFile is a parameter, so its effect is a ghost log: nwrites counts the calls, wname/wdata/
+// wperm record the arguments of call number i (append-only, hence functions of the index).
+
+//@ ghost var nwrites int
+//@ uninterp func wname(i int) string
+//@ uninterp func wdata(i int) []byte
+//@ uninterp func wperm(i int) int
+
+//@ func callback.writeFile
+//@ trusted
+//@ attr params = filename, data, perm
+//@ modifies ghost(nwrites)
+//@ ensures logged: nwrites == old(nwrites) + 1 && wname(old(nwrites)) == filename && wdata(old(nwrites)) == data && wperm(old(nwrites)) == perm
+
+// What save relies on: printing one file does not touch the package's file list, the decorator's
+// file-name table or the write log.
+//@ func (pr *Restorer) Fprint
+//@ modifies allbut(heap(Package.Syntax); heap(Package.Decorator); heap(Package.Dir); heap(Decorator.Filenames); elems(*dst.File); map(*dst.File, string))
+
+//@ func (p *Package) save
+//@ ensures all_written: result == nil ==> nwrites == old(nwrites) + len(p.Syntax)
+//@ ensures at_most_one_each: nwrites >= old(nwrites) && nwrites - old(nwrites) <= len(p.Syntax)
+//@ ensures in_order_to_own_path: forall j int :: 0 <= j && j < nwrites - old(nwrites) ==> wname(old(nwrites) + j) == p.Decorator.Filenames[p.Syntax[j]] && wperm(old(nwrites) + j) == 438
+//@ ensures file_list_untouched: len(p.Syntax) == old(len(p.Syntax))
+//@ loop 1 invariant count: nwrites == entry(nwrites) + $i && 0 <= $i && $i <= len(p.Syntax)
+//@ loop 1 invariant names: forall j int :: 0 <= j && j < $i ==> wname(entry(nwrites) + j) == p.Decorator.Filenames[p.Syntax[j]] && wperm(entry(nwrites) + j) == 438
